@@ -20,7 +20,7 @@ func init() {
 	register(&Check{
 		ID:    "C01",
 		Level: "model_checking",
-		Rule: "product: enabled set E (non-empty subset of 3 keys quick / 4 keys thorough) x spelling of the stored key {hex, 0x-hex, upper-hex, mixed, and one key stored under two spellings at once} x threshold 1..min(|E|,3) x message {empty, 116-byte header, burn message} " +
+		Rule: "product: enabled set E (non-empty subset of 3 keys quick / 4 keys thorough) x spelling of the stored key {hex, 0x-hex, upper-hex, mixed, and one key stored under two spellings at once} x threshold 1..min(|E|,3 quick / 4 thorough) x message {empty, 116-byte header, burn message} " +
 			"x ALL sequences of 0..T+1 atoms, atoms per key: honest v0/1, legacy v27/28, high-s twin, honest over another message; plus an unknown key, 65 zero bytes, a valid signature with v=2, a 64-byte truncation and a 66-byte padding (misaligning later chunks); " +
 			"verifier result == reference reading (iff); stateful leg: every (E,T,spelling) reached by enable/threshold transactions and the same atoms submitted through receive-message and replace-message; " +
 			"states = configurations, transitions = verifier/handler executions; distinct_nontrivial = distinct (configuration, atom sequence) pairs whose total length equals 65*T (i.e. that reach signature checking)",
@@ -115,7 +115,7 @@ func (c c01Config) String() string {
 func c01Configs(tier string) []c01Config {
 	nkeys, maxT := 3, 3
 	if tier == "thorough" {
-		nkeys, maxT = 4, 3
+		nkeys, maxT = 4, 4
 	}
 	var out []c01Config
 	for mask := 1; mask < 1<<nkeys; mask++ {
